@@ -687,9 +687,14 @@ def check_merge(ctx, spec, reqs, pending, fock=False):
             calls.append((list(seq), list(out)))
             return out
 
+    class NoTermination(Exception):
+        pass
+
     class RecMerge(gm.GaussianMerge):
         def merge_a_gaussian_op(self, registers):
             before = list(self.curr_seq)
+            if len(steps) > 30 * (len(before) + 5):      # every merge removes >= 1 command: far beyond any terminating run
+                raise NoTermination()
             n0 = len(calls)
             r = super().merge_a_gaussian_op(registers)
             dag = getattr(self, "new_DAG", None) if r else None
@@ -706,6 +711,12 @@ def check_merge(ctx, spec, reqs, pending, fock=False):
     except circuit_error():
         ctx.tally("gaussian_merge:CircuitError")
         source_untouched(ctx, snap, prog, "gaussian_merge", rp)
+        return
+    except NoTermination:
+        last = steps[-1]
+        ctx.fail("merge:does-not-terminate",
+                 f"compile(compiler='gaussian_merge') keeps merging without end: {len(steps)} merge steps on a circuit of "
+                 f"{len(steps[0][0])} commands; the last step turned {[str(c)[:40] for c in last[0]][:8]} into {[str(c)[:40] for c in last[1]][:8]}", rp)
         return
     except Exception as e:  # noqa: BLE001
         ctx.fail(f"merge:raises:{type(e).__name__}",
